@@ -29,20 +29,23 @@ LEVEL_TEXT = (
     "proof (partial): the ledger model (lean/XonshVerif/Model/FdLedger.lean) is the list of acquire / release events the code "
     "performs for a command: redirect files and the stream setters, the `|` PipeChannels, capture channels and their wrappers, "
     "started children and helper threads, swapped signal handlers; the except-branch of cmds_to_specs, the start-failure branch "
-    "of CommandPipeline.__init__, _close_prev_procs / _close_proc, the waits and the handler restores; the repairs proposed with "
-    "the findings are switches of the same model. Proved for ALL pipelines (any number of stages of any kind, any redirect lists "
-    "incl. unopenable / conflicting / pipe-colliding ones, any capture form, whichever stage fails in whichever phase) and all "
-    "prior session states: C09_ledger / C09_balanced (with the `teardown` repair the ledger after the command = the ledger before "
-    "on every exit path that ends the pipeline; when the body of _end is left early at most the un-waited child of a plain-Popen "
-    "last stage remains), C09_balanced_partial + C09_leak_exact (the code as it is balances IF AND ONLY IF no stage other than the "
-    "first fails to start), C09_cex_late_start_failure / _background / _abort / _held (the leaks of the unchanged code), "
-    "C09_close_idem, C09_close_comm, C09_extra_closes (closing is idempotent; additional closes anywhere never change a balanced "
-    "outcome: the timing-dependent closes of the real code may be left out), C09_held_bounded (while the raised exception is "
-    "referenced only one stage's redirect files or the one unattached pipe stay open), C09_handlers_restored (with the `lifo` "
-    "repair saved = restored on every path incl. start failures and an _end left early), C09_handlers_restored_partial (the code as "
-    "it is, guard: no started stage but the last swaps a handler), C09_cex_sigint / _abort_handlers / _sigint_chain, C09_repeat, "
-    "C09_repeat_handlers (any number of repetitions of a balancing command leaves ledger and signal state unchanged), "
-    "C09_repeat_grows (every repetition of a leaking command adds its residue again). Tie: the generated pipelines on the real code, "
+    "of CommandPipeline.__init__, _close_prev_procs / _close_proc, the waits and the handler restores. HEADLINE, for the code as it "
+    "is now (all three repairs in: every started stage is torn down after a start failure - /repo 84fd7b3; every proc gives its "
+    "handlers back, last started first, in the finally of _end - 59f5309; a failed build closes its own spec and the `|` loop its "
+    "unattached pipe - 7dff01d; the harness replays the fixed findings' witnesses on every run and picks this variant only if they "
+    "pass), proved for ALL pipelines (any number of stages of any kind, any redirect lists incl. unopenable / conflicting / "
+    "pipe-colliding ones, any capture form, whichever stage fails in whichever phase) and all prior session states: C09_balanced "
+    "(the ledger after the command = the ledger before, on every exit path that ends the pipeline; C09_ledger: when the body of _end "
+    "is left early at most the un-waited child of a plain-Popen last stage remains), C09_handlers_restored (saved = restored on "
+    "every path incl. start failures and an _end left early), C09_close_idem / C09_close_comm / C09_extra_closes (closing is "
+    "idempotent; additional closes anywhere never change a balanced outcome, so the timing-dependent closes of the real code may be "
+    "left out), C09_held_bounded, C09_repeat / C09_repeat_handlers (any number of repetitions leaves ledger and signal state "
+    "unchanged). Still outside the headline, with witnesses: C09_cex_background (nobody ends a `&` pipeline: open finding), "
+    "C09_cex_abort. PINNED SNAPSHOT (the code before those commits; kept as the record of what the proof forced and so that a "
+    "recurrence is recognised): C09_balanced_partial + C09_leak_exact (that code balanced IF AND ONLY IF no stage other than the "
+    "first failed to start), C09_handlers_restored_partial (guard: no started stage but the last swaps a handler), "
+    "C09_cex_late_start_failure / _held / _sigint / _abort_handlers / _sigint_chain, C09_repeat_grows (every repetition of a leaking "
+    "command adds its residue again). Tie: the generated pipelines on the real code (plain, and as an interactive shell on a pty), "
     "every acquisition matched with the ledger's open events, what is left compared with the ledger's residue; repetition stream for "
     "the cumulative clause; PipeChannel close sequences from one and two threads against stepRes."
 )
@@ -52,7 +55,9 @@ LEVEL_NOTE = (
     "waited-for child has exited and a joined thread has ended (the ledger counts a stage as given back once wait / join was "
     "CALLED), terminal ownership and attributes, environment and cwd equality, the effect of SIGINT. Helper threads that end by "
     "themselves within 2 s of the command (PrevProcCloser polls every 0.1 s) are tolerated. What the garbage collector gives back "
-    "once nothing references an old pipeline is outside the ledger (the repetition stream observes it). Ctrl-C DURING a command, "
+    "once nothing references an old pipeline is outside the ledger (the repetition stream observes it). An _end left early with a "
+    "plain-Popen last stage (its child is not waited for: C09_cex_abort) is not reachable by the generator (an uncaptured command's "
+    "output is never decoded). Ctrl-C DURING a command, "
     "job control (fg / bg / Ctrl-Z), $XONSH_STORE_STDIN and $THREAD_SUBPROCS off are outside the generated space."
 )
 
@@ -605,9 +610,16 @@ def _run_case_here(item):
         _Trace.events, _Trace.closes, _Trace.specs, _Trace.wait_timeouts, _Trace.waited, _Trace.on = [], [], [], [], [], True
         t0 = time.time()
         exc = None
-        for rep in range(reps):
+        rep = -1
+        while rep + 1 < reps:
+            rep += 1
             if rep == 1:
                 _Trace.on = False  # only the first run is traced
+                # a command that stalls (a 3 s join / wait timeout in _close_prev_procs per run) is repeated less often, so that
+                # slowness is not mistaken for a wedge: the repetitions must fit into half of the time allowed for the case
+                if out.get("wall", 0) > 0.25:
+                    reps = max(3, min(reps, int(0.5 * item.get("timeout", 40) / out["wall"])))
+                    out["reps_done"] = reps
             exc = _exec(item["src"])
             _drain(master)
             lc = XSH.lastcmd
@@ -1455,50 +1467,57 @@ def replay_known(ctx):
         w = f["witness"]
         if w.get("intermittent"):
             continue
-        case = w["case"]
-        case["src"] = render(case)
-        for attempt in range(4):
-            obs = run_batch([to_item(case, w.get("reps", 1))])[0]
-            has_alias = any(s_["kind"] == "thr" for s_ in case["stages"])
-            hit = is_hang(obs) or (has_alias and isinstance(obs, dict) and (any(obs.get("real_std_closed") or []) or obs.get("thread_excs")))
-            if not hit:
-                break
-            # the intermittent wedge (K_HANG) struck the witness itself: note it and run the witness again
-            ctx.count("witness-rerun-after/" + K_HANG)
-            if is_hang(obs) and not all(hang_mechanism(obs).values()):
-                break
-        if is_hang(obs) or (isinstance(obs, dict) and "__exc__" in obs):
-            raise common.InfraError(f"C09 known-finding witness did not run: {str(obs)[:500]}")
-        r0 = obs["reps"][0]
-        d = r0["delta"]
-        if f["key"] == K_LATE:
-            fails = bool(d.get("fds_added")) or bool(d.get("children"))
-        elif f["key"] == K_SIGINT:
-            fails = "handlers" in d and obs["reps"][-1]["chain"] >= w.get("reps", 1)
-        elif f["key"] == K_BG:
-            fails = bool(d.get("fds_added"))
-        elif f["key"] == K_HELD:
-            fails = any(obs["held"]) and not any(r0["final"])
-        elif f["key"] == K_ABORT:
-            fails = bool(obs.get("end_aborted")) and "handlers" in d
-        elif f["key"] == K_WAIT:
-            fails = bool(r0.get("wait_timeouts")) and bool(d.get("children"))
-        elif f["key"] == K_VSUSP:
-            fails = bool(((obs.get("tty") or {}).get("0") or {}).get("attr_diff"))
-        elif f["key"] == K_STDERR_CLOSED:
-            fails = any(obs.get("real_std_closed") or [])
-        else:
-            fails = bool(d)
-        if f["key"] in flags and f.get("status") == "open":
+        fails, details, src = False, [], []
+        for case in w.get("cases") or [w["case"]]:
+            case["src"] = render(case)
+            src.append(case["src"])
+            for attempt in range(4):
+                obs = run_batch([to_item(case, w.get("reps", 1))])[0]
+                has_alias = any(s_["kind"] == "thr" for s_ in case["stages"])
+                hit = is_hang(obs) or (has_alias and isinstance(obs, dict) and (any(obs.get("real_std_closed") or []) or obs.get("thread_excs")))
+                if not hit:
+                    break
+                # the intermittent wedge (K_HANG) struck the witness itself: note it and run the witness again
+                ctx.count("witness-rerun-after/" + K_HANG)
+                if is_hang(obs) and not all(hang_mechanism(obs).values()):
+                    break
+            if is_hang(obs) or (isinstance(obs, dict) and "__exc__" in obs):
+                raise common.InfraError(f"C09 known-finding witness did not run: {str(obs)[:500]}")
+            r0 = obs["reps"][0]
+            d = r0["delta"]
+            tty0 = (obs.get("tty") or {}).get("0") or {}
+            if f["key"] == K_LATE:
+                bad = bool(d.get("fds_added")) or bool(d.get("children"))
+            elif f["key"] == K_SIGINT:
+                bad = "handlers" in d and obs["reps"][-1]["chain"] >= w.get("reps", 1)
+            elif f["key"] == K_BG:
+                bad = bool(d.get("fds_added"))
+            elif f["key"] == K_HELD:
+                bad = any(obs["held"]) and not any(r0["final"])
+            elif f["key"] == K_ABORT:
+                # the handlers the last proc swapped, and (on a terminal) who owns the terminal after _end() raised
+                bad = (bool(obs.get("end_aborted")) and "handlers" in d) or (bool(tty0) and not tty0.get("fg_is_shell"))
+            elif f["key"] == K_WAIT:
+                bad = bool(r0.get("wait_timeouts")) and bool(d.get("children"))
+            elif f["key"] == K_VSUSP:
+                bad = bool(tty0.get("attr_diff"))
+            elif f["key"] == K_STDERR_CLOSED:
+                bad = any(obs.get("real_std_closed") or [])
+            else:
+                bad = bool(d)
+            fails = fails or bad
+            details.append({"source": case["src"], "fails": bad, "delta": d, "held": obs["held"], "sigint": obs["sigint"], "terminal": tty0 or None,
+                            "wait_timeouts": r0.get("wait_timeouts"), "real_std_closed": obs.get("real_std_closed")})
+        if f["key"] in flags:
+            # the ledger variant follows the implementation, whatever the file says (a recurrence of a fixed finding must not
+            # also drown in disagreements)
             flags[f["key"]] = not fails
-        ctx.replayed(f["key"], fails, {"delta": d, "held": obs["held"], "sigint": obs["sigint"], "wait_timeouts": r0.get("wait_timeouts")})
+        ctx.replayed(f["key"], fails, details if len(details) > 1 else details[0])
         if fails:
             # an open finding that still fails is a known finding; a FIXED one that fails again is a violation (its key is not open)
-            ctx.spec_failure({"stream": "known-witness", "source": case["src"], "case": case, "status": f.get("status")},
-                             {"delta": d, "held": obs["held"], "real_std_closed": obs.get("real_std_closed")}, f["what"], f["key"])
-    known_open = {f["key"] for f in ctx.known if f.get("status") == "open"}
-    # a finding that is not listed as open is taken as repaired
-    return (flags[K_LATE] or K_LATE not in known_open, flags[K_SIGINT] or K_SIGINT not in known_open, flags[K_HELD] or K_HELD not in known_open)
+            ctx.spec_failure({"stream": "known-witness", "source": " ;; ".join(src), "case": (w.get("cases") or [w["case"]])[0], "status": f.get("status")},
+                             details, f["what"], f["key"])
+    return (flags[K_LATE], flags[K_SIGINT], flags[K_HELD])
 
 
 def run(ctx):
